@@ -107,7 +107,9 @@ impl Mix {
                 m.restore = 3;
             }
             "C16" => {
-                m.create_index = 3;
+                // exact indices matter here: "index use" is one of the execution knobs
+                m.create_index = 12;
+                m.optimize = 4;
                 m.restore = 0;
             }
             "C22" | "C23" => {
@@ -341,6 +343,15 @@ impl Gen {
                     if rng.chance(0.3) {
                         return Op::AddColNull { name, ty: *rng.pick(&[Ty::I64, Ty::Str, Ty::F64]) };
                     }
+                    if rng.chance(0.3) {
+                        // Dataset::merge with a right side covering every key (lance refuses to
+                        // write NULLs for unmatched left rows of these types)
+                        let ki = st.col("k").unwrap();
+                        let mut keys: Vec<i64> = st.rows.iter().filter_map(|r| r[ki].as_i64()).collect();
+                        keys.sort();
+                        keys.dedup();
+                        return Op::MergeCols { name, keys, mul: rng.range(2, 5) };
+                    }
                     let from = if st.col("v").map(|i| st.cols[i].ty == Ty::I64).unwrap_or(false) && rng.chance(0.6) { "v" } else { "k" };
                     return Op::AddColSql { name, ty: Ty::I64, from: from.into(), add: rng.range(-2, 9) };
                 }
@@ -398,7 +409,7 @@ pub fn prop_for_op(op: &Op) -> &'static str {
         Op::Append { .. } | Op::Overwrite { .. } => "C11",
         Op::Delete { .. } | Op::Update { .. } | Op::Merge { .. } => "C12",
         Op::Compact { .. } => "C13",
-        Op::AddColSql { .. } | Op::AddColNull { .. } | Op::DropCol { .. } | Op::RenameCol { .. } | Op::CastCol { .. } => "C14",
+        Op::AddColSql { .. } | Op::AddColNull { .. } | Op::DropCol { .. } | Op::RenameCol { .. } | Op::CastCol { .. } | Op::MergeCols { .. } => "C14",
         Op::Restore { .. } => "C07",
         Op::CreateIndex { .. } | Op::DropIndex { .. } | Op::OptimizeIndices { .. } => "C19",
         Op::CreateVectorIndex { .. } => "C22",
@@ -1040,7 +1051,19 @@ pub fn has_not_over_in_conjunction(p: &Pred, under_not: bool) -> bool {
             }
             has_not_over_in_conjunction(a, under_not) || has_not_over_in_conjunction(b, under_not)
         }
-        Pred::Or(a, b) => has_not_over_in_conjunction(a, under_not) || has_not_over_in_conjunction(b, under_not),
+        Pred::Or(a, b) => {
+            // De Morgan form of the same shape: NOT (c IN A) OR NOT (c IN B) == NOT (c IN A AND c IN B)
+            if !under_not {
+                if let (Pred::Not(x), Pred::Not(y)) = (a.as_ref(), b.as_ref()) {
+                    if let (Pred::In(c1, _), Pred::In(c2, _)) = (x.as_ref(), y.as_ref()) {
+                        if c1 == c2 {
+                            return true;
+                        }
+                    }
+                }
+            }
+            has_not_over_in_conjunction(a, under_not) || has_not_over_in_conjunction(b, under_not)
+        }
         _ => false,
     }
 }
@@ -1190,7 +1213,7 @@ pub async fn run_seq(cfg: RunCfg) -> RunResult {
                 r.o_flags();
             }
             if prop_now == "C16" {
-                r.o_knobs(3).await;
+                r.o_knobs(4).await;
             }
             if prop_now == "C22" {
                 r.o_knn(6).await;
